@@ -115,9 +115,11 @@ theorem consecutive_reported : ∀ r ∈ Gen.C12Rows.table, ∀ p ∈ r.dbOps.zi
   · rename_i h0; simp at h0; exact absurd h0 hk
   · simp only [Bool.and_eq_true] at this; exact this.1.2
 
-/-- every AArch64 register-list form of the database (ld1–ld4, st1–st4, ld1r–ld4r, tbl/tbx lists …) that AsmJit accepts
-    reports the run (full-strength monitor) -/
-theorem a64_lists_reported : ∀ r ∈ Gen.C12A64.table, rowOk r = true :=
+/-- every AArch64 register-list form of the database (ld1–ld4, st1–st4, ld1r–ld4r; all arrangements, all addressing forms) whose
+    list starts at operand 0 reports the run: lead count = list length on the first register, `kConsecutive` on the others.
+    Full strength (`∀ list form`) fails: finding C12-F3, `tbl`/`tbx` lists start at operand 1 and are not reported
+    (`a64_list_not_first_witness`). -/
+theorem a64_lists_reported_partial : ∀ r ∈ Gen.C12A64.table, rowOk r = true :=
   List.all_eq_true.mp Gen.C12A64.table_ok
 
 /-- the committed RW / flags / feature tables of x86instdb.cpp are the tables tools/tablegen-x86.js regenerates from db/
@@ -138,6 +140,14 @@ def f2Witness : Row :=
    [⟨0x102, 2, 0, 0, 0x0, 0xff, 0x0⟩], 0, 0x30f, []⟩
 theorem implicit_omitted_witness : rowOk f2Witness = false := by decide
 
+/-- C12-F3: `tbl v4.8b, {v8.16b, v9.16b}, v5.8b` — no lead count on `v8`, no `kConsecutive` on `v9` -/
+def f3Witness : Row :=
+  ⟨false, [⟨1, false, 16, false, false, 0, 0, 0, 0, false, []⟩, ⟨1, false, 16, false, false, 0, 0, 0, 2, false, []⟩,
+           ⟨1, false, 16, false, false, 0, 0, 1, 0, false, []⟩, ⟨1, false, 16, false, false, 0, 0, 0, 0, false, []⟩], 0, 0, false, [], [],
+   [⟨0x2, 255, 0, 0, 0x0, 0xffffffffffffffff, 0x0⟩, ⟨0x1, 255, 0, 0, 0xffffffffffffffff, 0x0, 0x0⟩,
+    ⟨0x1, 255, 0, 0, 0xffffffffffffffff, 0x0, 0x0⟩, ⟨0x1, 255, 0, 0, 0xffffffffffffffff, 0x0, 0x0⟩], 0, 0, []⟩
+theorem a64_list_not_first_witness : rowOk f3Witness = false := by decide
+
 /-! ### non-vacuity: the tables are populated and contain rows of every kind the clauses talk about -/
 example : Gen.C12Rows.tableSize > 1000 := by decide
 example : Gen.C12Rows.table.length = Gen.C12Rows.tableSize := by decide +kernel
@@ -147,7 +157,7 @@ example : (Gen.C12Rows.table.filter fun r => (r.dbOps.zip r.implOps).any fun p =
     p.1.rmChecked && hasBits p.2.flags fRegMem && !p.1.memAlt.isEmpty).length > 300 := by decide +kernel
 example : (Gen.C12Rows.table.filter fun r => r.dbOps.any fun d => d.kind == 1 && d.gp && d.write && d.size == 4).length > 50 := by decide +kernel
 example : (Gen.C12Rows.table.filter fun r => r.dbOps.any fun d => d.runLen ≥ 2).length > 0 := by decide +kernel
-example : (Gen.C12A64.table.filter fun r => r.dbOps.any fun d => d.runLen ≥ 2).length > 20 := by decide +kernel
+example : (Gen.C12A64.table.filter fun r => r.dbOps.any fun d => d.runLen ≥ 2).length > 5 := by decide +kernel
 example : Gen.C12Tables.committed.length > 2000 := by decide +kernel
 
 end Props.C12
